@@ -64,7 +64,7 @@ func (c *CriteriaMixing) Identifier() string {
 }
 
 func (c *CriteriaMixing) Apply(
-	original, current *model.DecisionMakingParams,
+	_, current *model.DecisionMakingParams,
 	props *model.BiasProps,
 	listener *model.BiasListener,
 ) *model.BiasedResult {
@@ -73,10 +73,10 @@ func (c *CriteriaMixing) Apply(
 	}
 	parsedProps := parseProps(props)
 	generator := c.generatorSource(parsedProps.RandomSeed)
-	c2m := selectCriteriaToMix(original, generator)
-	allAlternatives := original.AllAlternatives()
+	c2m := selectCriteriaToMix(current, generator)
+	allAlternatives := current.AllAlternatives()
 	referenceCriterionProvider := c.referenceCriteriaManager.ForParams(props)
-	referenceCriterion := referenceCriterion(original, listener, referenceCriterionProvider)
+	referenceCriterion := referenceCriterion(current, listener, referenceCriterionProvider)
 	targetValRange := model.ValuesRangeWithGroundZero(&allAlternatives, referenceCriterion)
 	mixResult := c2m.mix(&allAlternatives, targetValRange, parsedProps)
 	newCriterion := c2m.criterion(targetValRange)
